@@ -388,9 +388,31 @@ def r19_4(ctx):
     ctx.end()
 
 
+def r19_5(ctx):
+    """State values in logs may be equal to an enum member without being that object (plain ints after a JSON load, members of
+    the sibling enum written by append_project_log_from_simple_json): reporting code must compare them with == / != only."""
+    ctx.begin("R19.5", "reporting functions compare state values by equality, never by identity", floor=8)
+    from ..guards import property_roots, region
+    roots, _ = property_roots(ctx, "C19")
+    for g in region(ctx, roots):
+        ctx.instance(g.qualname)
+        for n in ast.walk(g.node):
+            if isinstance(n, ast.Compare):
+                for op, l, r in zip(n.ops, [n.left] + n.comparators[:-1], n.comparators):
+                    if isinstance(op, (ast.Is, ast.IsNot)):
+                        def single(x):
+                            return isinstance(x, ast.Constant) and x.value in (None, True, False)
+                        if not single(l) and not single(r):
+                            ctx.violation(construct(g, "identity-comparison"), g.loc(n),
+                                          f"`{ast.unparse(n)[:70]}` compares a state value by identity: a log entry that is equal to the member but not the same object "
+                                          f"(a reloaded or appended log) is not recognised, so its run is dropped from the chart")
+    ctx.end()
+
+
 def run(ctx):
     r19_1(ctx)
     r19_2(ctx)
     r19_3(ctx)
     r19_4(ctx)
     r19_1b(ctx)
+    r19_5(ctx)
